@@ -404,11 +404,15 @@ func genDFile(r *Rand, tier string) *dFile {
 				}
 				td.Fields = append(td.Fields, fd)
 			}
-			if td.Kind == "type" && r.Chance(1, 5) {
+			if (td.Kind == "type" || td.Kind == "table") && r.Chance(1, 5) {
 				// a type declared inside this one
-				in := dTypeDecl{Name: "In", Kind: "type", Attrs: g.attrs(false), Items: []dEnumItem{}, Members: []dType{}}
+				in := dTypeDecl{Name: "In", Kind: Pick(r, []string{"type", "type", "table"}), Attrs: g.attrs(false), Items: []dEnumItem{}, Members: []dType{}}
 				for k := 0; k < 1+r.Intn(3); k++ {
-					in.Fields = append(in.Fields, dField{Name: fmt.Sprintf("n%d", k), Ty: dType{Prim: Pick(r, c02Prims), RefApp: []string{}, RefPath: []string{}, Opt: r.Chance(1, 3)}, Attrs: emptyAttrs()})
+					nf := dField{Name: fmt.Sprintf("n%d", k), Ty: dType{Prim: Pick(r, c02Prims), RefApp: []string{}, RefPath: []string{}, Opt: r.Chance(1, 3)}, Attrs: emptyAttrs()}
+					if in.Kind == "table" && k == 0 {
+						nf.Attrs.Tags = []string{"pk"}
+					}
+					in.Fields = append(in.Fields, nf)
 				}
 				td.Nested = append(td.Nested, in)
 			}
@@ -505,6 +509,10 @@ func genDFile(r *Rand, tier string) *dFile {
 			a.Rest = append(a.Rest, g.rest(parts, 0, fmt.Sprintf("r%d", i)))
 		}
 		f.Apps = append(f.Apps, a)
+	}
+	if r.Bool() {
+		// any order of the applications: a subscriber may be written before the application that publishes
+		Shuffle(r, f.Apps)
 	}
 	return f
 }
